@@ -49,7 +49,7 @@ var sinkMethods = map[string]bool{
 var alsoSink = map[string]bool{"ToBinary": true}
 
 type flowSummary struct {
-	sites  map[string]map[string]flabel // "Kind" -> distinct sink sites (call-site sensitive, one level) with their strongest label
+	sites  map[string]map[string]siteCnt // "Kind" -> local site (instruction of this function) -> number of distinct call paths from that site to a sink of this kind
 	sinks  map[string]flabel            // "Kind" -> strongest label
 	rets   map[int]flabel
 	outs   map[int]flabel    // flows into the object of another parameter
@@ -57,7 +57,7 @@ type flowSummary struct {
 }
 
 func newSummary() *flowSummary {
-	return &flowSummary{sites: map[string]map[string]flabel{}, sinks: map[string]flabel{}, rets: map[int]flabel{}, outs: map[int]flabel{}, stores: map[string]flabel{}}
+	return &flowSummary{sites: map[string]map[string]siteCnt{}, sinks: map[string]flabel{}, rets: map[int]flabel{}, outs: map[int]flabel{}, stores: map[string]flabel{}}
 }
 
 func up(m map[string]flabel, k string, l flabel) bool {
@@ -343,7 +343,24 @@ func siteKey(ins ssa.Instruction) string {
 	return fmt.Sprintf("%p", ins)
 }
 
+// siteCnt: distinct call paths from a local site to sinks: all of them, and those reached by the wire itself (raw).
+// Path counts are invariant under extracting / inlining helpers and wrappers (paths only get longer or shorter).
+type siteCnt struct{ all, raw int }
+
+const siteCntMax = 1 << 30
+
 func (s *fstate) sinkAt(kind string, l flabel, site string) {
+	if l == lNone {
+		return
+	}
+	c := siteCnt{all: 1}
+	if l == lRaw {
+		c.raw = 1
+	}
+	s.sinkCnt(kind, l, site, c)
+}
+
+func (s *fstate) sinkCnt(kind string, l flabel, site string, c siteCnt) {
 	if l == lNone {
 		return
 	}
@@ -353,30 +370,54 @@ func (s *fstate) sinkAt(kind string, l flabel, site string) {
 	if site != "" {
 		m := s.sum.sites[kind]
 		if m == nil {
-			m = map[string]flabel{}
+			m = map[string]siteCnt{}
 			s.sum.sites[kind] = m
 		}
-		if l > m[site] {
-			m[site] = l
+		old := m[site]
+		if c.all > old.all || c.raw > old.raw {
+			if c.all < old.all {
+				c.all = old.all
+			}
+			if c.raw < old.raw {
+				c.raw = old.raw
+			}
+			m[site] = c
 			s.change = true
 		}
 	}
+}
+
+func siteTotals(m map[string]siteCnt) siteCnt {
+	var t siteCnt
+	for _, c := range m {
+		t.all += c.all
+		t.raw += c.raw
+		if t.all > siteCntMax {
+			t.all = siteCntMax
+		}
+		if t.raw > siteCntMax {
+			t.raw = siteCntMax
+		}
+	}
+	return t
 }
 
 func (s *fstate) applySummary(sum *flowSummary, argLabel flabel, call ssa.Value, args []ssa.Value, nParams int, closure *ssa.MakeClosure) {
 	for k, l := range sum.sinks {
 		s.sinkAt(k, minLabel(argLabel, l), "")
 	}
-	// one level of call-site sensitivity: the same sink reached through two different calls counts twice
+	// call-path sensitivity: the call site contributes as many paths as the callee's parameter has
 	ctx := siteKey(s.cur)
 	for k, m := range sum.sites {
-		for site, l := range m {
-			inner := site
-			if i := strings.LastIndex(inner, ">"); i >= 0 {
-				inner = inner[i+1:]
-			}
-			s.sinkAt(k, minLabel(argLabel, l), ctx+">"+inner)
+		t := siteTotals(m)
+		if argLabel != lRaw {
+			t.raw = 0
 		}
+		l := lDerived
+		if t.raw > 0 {
+			l = lRaw
+		}
+		s.sinkCnt(k, minLabel(argLabel, l), ctx, t)
 	}
 	for k, l := range sum.stores {
 		if up(s.sum.stores, k, minLabel(argLabel, l)) {
@@ -956,15 +997,15 @@ func (e *flowEngine) Facts(src *flowSource) map[string]flabel {
 }
 
 // FactsSites additionally returns the identities of the sink sites reached, per kind.
-func (e *flowEngine) FactsSites(src *flowSource) (map[string]flabel, map[string]map[string]bool) {
+func (e *flowEngine) FactsSites(src *flowSource) (map[string]flabel, map[string]map[string]siteCnt) {
 	out := map[string]flabel{}
 	sum := e.forwardFrom(src.fn, src.call, src.idx, lRaw, 0)
 	e.collectLocal(out, sum)
-	sites := map[string]map[string]bool{}
+	sites := map[string]map[string]siteCnt{}
 	for k, m := range sum.sites {
-		sites[k] = map[string]bool{}
-		for s := range m {
-			sites[k][s] = true
+		sites[k] = map[string]siteCnt{}
+		for st, c := range m {
+			sites[k][st] = c
 		}
 	}
 	return out, sites
@@ -975,16 +1016,11 @@ func (e *flowEngine) collectLocal(out map[string]flabel, sum *flowSummary) {
 		up(out, k, l)
 	}
 	for k, m := range sum.sites {
-		nraw := 0
-		for _, l := range m {
-			if l == lRaw {
-				nraw++
-			}
-		}
-		// counts are carried as pseudo-facts "Kind#n" (all sites) and "Kind#raw#n"
-		out[fmt.Sprintf("%s#%d", k, len(m))] = lDerived
-		if nraw > 0 {
-			out[fmt.Sprintf("%s#raw#%d", k, nraw)] = lRaw
+		t := siteTotals(m)
+		// counts are carried as pseudo-facts "Kind#n" (all call paths) and "Kind#raw#n"
+		out[fmt.Sprintf("%s#%d", k, t.all)] = lDerived
+		if t.raw > 0 {
+			out[fmt.Sprintf("%s#raw#%d", k, t.raw)] = lRaw
 		}
 	}
 	var sks []string
